@@ -29,6 +29,12 @@ impl MockWriter {
         destination: FragmentAddr,
         fragment: &[u8],
     ) -> Result<(), LinkError> {
+        #[cfg(dnp3_verif)]
+        crate::util::verif_trace::log(format!(
+            "tx {} {}",
+            destination.link.raw_value(),
+            crate::util::verif_trace::hex(fragment)
+        ));
         io.write(fragment, destination.phys, level.physical).await?;
         self.num_writes += 1;
         Ok(())
@@ -40,6 +46,8 @@ impl MockWriter {
         _: FragmentAddr,
         _: DecodeLevel,
     ) -> Result<(), LinkError> {
+        #[cfg(dnp3_verif)]
+        crate::util::verif_trace::log("tx-link-status-request".to_string());
         Ok(())
     }
 }
